@@ -157,4 +157,54 @@ decreasing_by all_goals exact decodeNext_length h
 def is6531Local (b : LBuild) (s : List Nat) : Int :=
   if s.isEmpty then -(E.LPART_EMPTY : Int) else loc6531Loop b none false false s
 
+/-! ### `is_6531_local` as written: the dot tests look at the PREVIOUS character
+
+`src/is_6531_local.c` tests "the previous character is a dot" (`start[prev] == '.'`) where the other three scanners
+test "the next byte is a dot" (`cp[1] == '.'`), and it does so before the misplaced-dot test.  `loc6531LoopC` mirrors
+that order; `Lemmas/Local6531C.lean` proves it equal, return codes included, to `loc6531Loop` above, which shares
+`unquotedStep` with the other scanners and is the form the theorems use.  The driver runs the C-shaped form. -/
+
+def unquotedStep6 (extra : List Nat) (prev : Option Nat) (c : Nat) (cs : List Nat) : Except Int Bool :=
+  if c == 34 then
+    if prev == none || prev == some 46 then .ok true else .error (-(E.LPART_MISPLACED_QUOTE : Int))
+  else if c == 46 then
+    -- `pos >= 1 && start[prev] == '.'`, then `pos == 0 || start + pos + 1 == end`
+    if prev == some 46 then .error (-(E.LPART_TOO_MANY_DOTS : Int))
+    else if prev == none || cs.isEmpty then .error (-(E.LPART_MISPLACED_DOT : Int))
+    else .ok false
+  else if specials.contains c || extra.contains c then .error (-(E.LPART_SPECIAL : Int))
+  else .ok false
+
+def loc6531LoopC (b : LBuild) (prev : Option Nat) (quote qpair : Bool) (inp : List Nat) : Int :=
+  match h : decodeNext inp with
+  | .fin => locFin quote
+  | .err => -(E.LPART_INVALID_UTF8 : Int)
+  | .ch c rest =>
+    let first := inp.head?           -- `start[pos]`
+    if c > 127 then
+      if qpair then -(E.LPART_NOT_ASCII : Int) else loc6531LoopC b first quote qpair rest
+    else if !b.rfc5322 && isCntrl c then -(E.LPART_CTRL_CHAR : Int)
+    else if !quote then
+      if b.rfc5322 && !qpair && isCntrl c then -(E.LPART_CTRL_CHAR : Int)
+      else match unquotedStep6 (if b.rfc20 then rfc20set else []) prev c rest with
+        | .error e => e
+        | .ok q => loc6531LoopC b first q qpair rest
+    else if qpair then loc6531LoopC b first quote false rest
+    else if c == 34 then
+      if closeOk rest then loc6531LoopC b first false qpair rest else -(E.LPART_MISPLACED_QUOTE : Int)
+    else if c == 92 then loc6531LoopC b first quote true rest
+    else if b.rfc5322 && blanks.contains c then
+      if (match prev with | some p => wsq.contains p | none => false) then loc6531LoopC b first quote qpair rest
+      else match rest.head? with
+        | none => loc6531LoopC b first quote qpair rest
+        | some n =>
+          if n > 127 || wsq.contains n then loc6531LoopC b first quote qpair rest
+          else -(E.LPART_UNQUOTED_FWS : Int)
+    else loc6531LoopC b first quote qpair rest
+termination_by inp.length
+decreasing_by all_goals exact decodeNext_length h
+
+def is6531LocalC (b : LBuild) (s : List Nat) : Int :=
+  if s.isEmpty then -(E.LPART_EMPTY : Int) else loc6531LoopC b none false false s
+
 end Eav
